@@ -412,7 +412,9 @@ class MultiVector:
     def asmatrix(self):
         """ Returns a matrix representation of this multivector. """
         bin2index = {k: i for i, k in enumerate(self.algebra.canon2bin.values())}
-        return sum(v * self.algebra.matrix_basis[bin2index[k]] for k, v in self.items())
+        # Start from the zero matrix, such that the empty multivector is represented by a matrix as well.
+        zero = 0 * self.algebra.matrix_basis[0]
+        return sum((v * self.algebra.matrix_basis[bin2index[k]] for k, v in self.items()), zero)
 
     def asfullmv(self, canonical=True):
         """
